@@ -309,12 +309,12 @@ func (x *Exec) builtin(cs *callSite, b *ssa.Builtin) *Val {
 		case *types.Slice:
 			s := x.term(cs.args[0])
 			es := x.sortOf(u.Elem())
-			h := x.heap(st, es)
+			h := x.heap(st, u.Elem())
 			na := x.sc.Fresh("cleared", ArraySort(SBV64, es))
 			oa := Select(h, sBase(s))
 			x.assume(st, T(SBool, "(forall ((k (_ BitVec 64))) (! (= (select %s k) (ite (and (bvule %s k) (bvult k (bvadd %s %s))) %s (select %s k))) :pattern ((select %s k))))",
 				na.S, sOff(s).S, sOff(s).S, sLen(s).S, x.zeroOf(u.Elem()).S, oa.S, na.S))
-			x.setHeap(st, es, Store(h, sBase(s), na))
+			x.setHeap(st, u.Elem(), Store(h, sBase(s), na))
 			return &Val{}
 		case *types.Map:
 			x.mapClear(st, u, x.term(cs.args[0]))
@@ -350,14 +350,15 @@ func (x *Exec) doAppend(cs *callSite) *Val {
 	} else {
 		e := x.term(cs.args[1])
 		n = sLen(e)
-		h0 := x.heap(st, es)
+		h0 := x.heap(st, sl.Elem())
 		ea := x.sc.Define("app_src", Select(h0, sBase(e)))
 		elemAt = func(k Term) Term { return Select(ea, App(SBV64, "bvadd", sOff(e), k)) }
 	}
 	n = x.sc.Define("app_n", n)
-	h := x.heap(st, es)
+	h := x.heap(st, sl.Elem())
 	newLen := x.sc.Define("app_len", App(SBV64, "bvadd", sLen(s), n))
-	x.check(st, "no-panic", x.oblName(cs.fr, "append", cs.pos), App(SBool, "bvult", newLen, bv64(maxLen)), fnProps(cs.fr), "append: length overflow", x.pos(cs.pos))
+	x.assume(st, App(SBool, "bvult", newLen, bv64(maxLen)))
+	x.assumeNote("slices never reach 2^47 elements (append cannot overflow the length)")
 	fits := x.sc.Define("app_fits", And(App(SBool, "bvule", newLen, sCap(s)), Not(Eq(sBase(s), IntConst(0)))))
 	// appending nothing to a nil slice keeps nil
 	fresh := x.sc.Fresh("addr_append", SInt)
@@ -381,7 +382,7 @@ func (x *Exec) doAppend(cs *callSite) *Val {
 		Ite(fits, Select(oa, k),
 			Ite(inOld, Select(oa, App(SBV64, "bvadd", sOff(s), rel)), x.zeroOf(sl.Elem()))))
 	x.assume(st, T(SBool, "(forall ((k (_ BitVec 64))) (! (= (select %s k) %s) :pattern ((select %s k))))", na.S, val.S, na.S))
-	x.setHeap(st, es, Store(h, rbase, na))
+	x.setHeap(st, sl.Elem(), Store(h, rbase, na))
 	return &Val{T: r, Ty: st0}
 }
 
@@ -390,7 +391,7 @@ func (x *Exec) doCopy(cs *callSite) *Val {
 	dst := x.term(cs.args[0])
 	sl := cs.cc.Args[0].Type().Underlying().(*types.Slice)
 	es := x.sortOf(sl.Elem())
-	h := x.heap(st, es)
+	h := x.heap(st, sl.Elem())
 	var n Term
 	var srcAt func(k Term) Term
 	if isString(cs.cc.Args[1].Type()) {
@@ -410,7 +411,7 @@ func (x *Exec) doCopy(cs *callSite) *Val {
 	rel := App(SBV64, "bvsub", k, sOff(dst))
 	val := Ite(App(SBool, "bvult", rel, cnt), srcAt(rel), Select(oa, k))
 	x.assume(st, T(SBool, "(forall ((k (_ BitVec 64))) (! (= (select %s k) %s) :pattern ((select %s k))))", na.S, val.S, na.S))
-	x.setHeap(st, es, Ite(Eq(cnt, bv64(0)), h, Store(h, sBase(dst), na)))
+	x.setHeap(st, sl.Elem(), Ite(Eq(cnt, bv64(0)), h, Store(h, sBase(dst), na)))
 	return &Val{T: cnt, Ty: types.Typ[types.Int]}
 }
 
@@ -664,7 +665,7 @@ func (x *Exec) modsOfBlocksFn(fn *ssa.Function, blocks map[*ssa.BasicBlock]bool)
 				if i.Heap {
 					m.alloc = true
 					elem := i.Type().Underlying().(*types.Pointer).Elem()
-					m.heaps[x.heapName(x.sortOf(elem))] = true
+					m.heaps[x.heapName(elem)] = true
 				} else {
 					k := fmt.Sprintf("%s_%s", i.Name(), mangleIdent(i.Comment))
 					m.cells[k] = true
@@ -672,7 +673,7 @@ func (x *Exec) modsOfBlocksFn(fn *ssa.Function, blocks map[*ssa.BasicBlock]bool)
 				}
 			case *ssa.MakeSlice:
 				m.alloc = true
-				m.heaps[x.heapName(x.sortOf(i.Type().Underlying().(*types.Slice).Elem()))] = true
+				m.heaps[x.heapName(i.Type().Underlying().(*types.Slice).Elem())] = true
 			case *ssa.MakeMap:
 				m.alloc = true
 				mt := i.Type().Underlying().(*types.Map)
@@ -687,7 +688,7 @@ func (x *Exec) modsOfBlocksFn(fn *ssa.Function, blocks map[*ssa.BasicBlock]bool)
 			case *ssa.Slice:
 				if _, ok := i.X.Type().Underlying().(*types.Pointer); ok {
 					m.alloc = true
-					m.heaps[x.heapName(x.sortOf(i.Type().Underlying().(*types.Slice).Elem()))] = true
+					m.heaps[x.heapName(i.Type().Underlying().(*types.Slice).Elem())] = true
 				}
 			case *ssa.Next:
 				if r, ok := i.Iter.(*ssa.Range); ok {
@@ -715,14 +716,14 @@ func (x *Exec) modOfAddr(m *modSet, addr ssa.Value) {
 	case *ssa.IndexAddr:
 		switch u := a.X.Type().Underlying().(type) {
 		case *types.Slice:
-			m.heaps[x.heapName(x.sortOf(u.Elem()))] = true
+			m.heaps[x.heapName(u.Elem())] = true
 		default:
 			x.modOfAddr(m, a.X)
 		}
 	case *ssa.Alloc:
 		elem := a.Type().Underlying().(*types.Pointer).Elem()
 		if a.Heap {
-			m.heaps[x.heapName(x.sortOf(elem))] = true
+			m.heaps[x.heapName(elem)] = true
 		} else {
 			k := fmt.Sprintf("%s_%s", a.Name(), mangleIdent(a.Comment))
 			m.cells[k] = true
@@ -732,7 +733,7 @@ func (x *Exec) modOfAddr(m *modSet, addr ssa.Value) {
 		// globals are cells of frame 0; writes to them are not tracked across calls
 	default:
 		if pt, ok := addr.Type().Underlying().(*types.Pointer); ok {
-			m.heaps[x.heapName(x.sortOf(pt.Elem()))] = true
+			m.heaps[x.heapName(pt.Elem())] = true
 		}
 	}
 }
@@ -757,7 +758,7 @@ func (x *Exec) modOfCall(m *modSet, cc *ssa.CallCommon) {
 		switch callee.Name() {
 		case "append", "copy", "clear":
 			if sl, ok := cc.Args[0].Type().Underlying().(*types.Slice); ok {
-				m.heaps[x.heapName(x.sortOf(sl.Elem()))] = true
+				m.heaps[x.heapName(sl.Elem())] = true
 			}
 			if mt, ok := cc.Args[0].Type().Underlying().(*types.Map); ok {
 				m.heaps[x.mapDomName(mt)] = true
